@@ -99,6 +99,8 @@ def r11_1(ctx: Ctx):
                     continue          # looked through: what the callee does with the value is examined on its events
                 vals = list(e.d['args']) + list(e.d['kwargs'].values())
                 if any(is_t(v) for v in vals) or is_t(e.d.get('recv')):
+                    if isinstance(e.node, ast.Call) and C.is_diagnostic_call(ctx, e.func, e.node):
+                        continue          # logged / printed: leaves the program state
                     if e.d.get('ext') and e.d['name'] in ('total_seconds', 'print', 'format', 'str'):
                         # result derived from the clock stays tainted
                         if e.d.get('result') is not None:
